@@ -518,7 +518,10 @@ fn fmt_snippet_window_with_mapping_or_fallback(
         }
     };
     let gutter_width = max_display_row.to_string().len();
-    writeln!(f, "  |")?;
+    // Marker and spacer lines carry the same gutter as the numbered lines, so that their `|`
+    // (and with it the caret) stays in the column of the source text also for line numbers
+    // of two and more digits.
+    writeln!(f, "{:gutter_width$} |", "")?;
 
     let mut cur_row = window_start_row;
     for line in window_text.split_inclusive('\n') {
@@ -533,18 +536,41 @@ fn fmt_snippet_window_with_mapping_or_fallback(
         let display_row = window_start_absolute_row
             .saturating_add(cur_row)
             .saturating_sub(window_start_row);
-        writeln!(f, "{display_row:>gutter_width$} | {line}")?;
+        // Tabs are shown as four spaces, as in the primary window; the caret moves with them.
+        if line.contains('\t') {
+            writeln!(
+                f,
+                "{display_row:>gutter_width$} | {}",
+                line.replace('\t', "    ")
+            )?;
+        } else {
+            writeln!(f, "{display_row:>gutter_width$} | {line}")?;
+        }
 
         if cur_row == row {
             let line_byte_start = window_text[..local_start]
                 .rfind('\n')
                 .map(|i| i + 1)
                 .unwrap_or(0);
-            let caret_chars = window_text[line_byte_start..local_start].chars().count();
+            let caret_chars: usize = window_text[line_byte_start..local_start]
+                .chars()
+                .map(|c| if c == '\t' { 4 } else { 1 })
+                .sum();
             if msg.is_empty() {
-                writeln!(f, "  | {space:>caret_chars$}^", space = "")?;
+                writeln!(
+                    f,
+                    "{:gutter_width$} | {space:>caret_chars$}^",
+                    "",
+                    space = ""
+                )?;
             } else {
-                writeln!(f, "  | {space:>caret_chars$}^ {msg}", space = "", msg = msg)?;
+                writeln!(
+                    f,
+                    "{:gutter_width$} | {space:>caret_chars$}^ {msg}",
+                    "",
+                    space = "",
+                    msg = msg
+                )?;
             }
         }
 
@@ -567,14 +593,25 @@ fn fmt_snippet_window_with_mapping_or_fallback(
                 .unwrap_or(0);
             let caret_chars = window_text[line_byte_start..local_start].chars().count();
             if msg.is_empty() {
-                writeln!(f, "  | {space:>caret_chars$}^", space = "")?;
+                writeln!(
+                    f,
+                    "{:gutter_width$} | {space:>caret_chars$}^",
+                    "",
+                    space = ""
+                )?;
             } else {
-                writeln!(f, "  | {space:>caret_chars$}^ {msg}", space = "", msg = msg)?;
+                writeln!(
+                    f,
+                    "{:gutter_width$} | {space:>caret_chars$}^ {msg}",
+                    "",
+                    space = "",
+                    msg = msg
+                )?;
             }
         }
     }
 
-    writeln!(f, "  |")
+    writeln!(f, "{:gutter_width$} |", "")
 }
 
 /// Print a message optionally suffixed with a localized location suffix.
